@@ -191,10 +191,13 @@ class Fn:
                 nm = p.get('name')
                 if nm is None or nm in self.skipp:
                     continue
+                # C18: "array_params": {"F": ["data"]} -- a pointer parameter used as an array (`data[i]`): typed (Z -> Z) like an array field;
+                # together with out_params + inout_params a written array is returned (UIntMath::SetBit(UInt* data, ..))
+                ap_ = cfg.get('array_params', {}).get(self.name, [])
                 if nm in self.outp:
-                    self.env[nm] = ctype(p)
+                    self.env[nm] = ('arr', ('u', 8), 0) if nm in ap_ else ctype(p)
                     if nm in cfg.get('inout_params', {}).get(self.name, []):   # C06: reference parameter that is read AND written: input and part of the result tuple
-                        self.params.append((nm, coq_ty(ctype(p))))
+                        self.params.append((nm, coq_ty(self.env[nm])))
                     continue
                 if nm in self.functors:
                     mode = self.functors[nm]
@@ -214,6 +217,7 @@ class Fn:
                     continue
                 nm = coq_ident(nm)
                 ct = ctype(p)
+                if nm in ap_: ct = ('arr', ('u', 8), 0)   # C18: array_params
                 if ct[0] == 'other' and 'pair' in ct[1]:
                     ct = ('pair',)
                 if ct[0] == 'other' and ct[1].split('::')[-1] in getattr(ctx, 'enum_types', ()):   # C05: "enum_types"
@@ -488,6 +492,9 @@ class Fn:
                 if nm not in self.env:
                     raise TranslationError(f'field {nm} used in static function')
                 return nm
+            mpt_ = self.ctx.cfg.get('member_prims', {}).get(nm)   # C06: a class-type member of *this used only as the object of primitive calls
+            if mpt_ is not None:
+                return mpt_
             raise TranslationError('member %s is not a configured field' % nm)
         # nested struct member: a.b  -> flattened name a_b if configured
         if base['kind'] == 'MemberExpr':
@@ -505,6 +512,9 @@ class Fn:
             return f'({"fst" if nm == "first" else "snd"} {self.e(base)})'
         if nm == '' and self.ctx.cfg.get('member_prims') and n.get('inner'):   # C10: member of an ANONYMOUS union/struct (InsertResult::{position|iterator}): transparent
             return self.e(n['inner'][0])
+        if base['kind'] == 'DeclRefExpr' and nm in ('first', 'second') and self.ctx.cfg.get('opaque_types') and \
+                'pair<' in (base.get('type', {}).get('desugaredQualType') or base.get('type', {}).get('qualType', '')):   # C06: local std::pair<iterator, bool>
+            return f'({"fst" if nm == "first" else "snd"} {coq_ident(base["referencedDecl"]["name"])})'
         mp_ = self.ctx.cfg.get('member_prims', {}).get(nm)   # C06: "member_prims": {"first": "key_of_elem"}: a data member of an opaque value
         if mp_ is not None:
             return f'({mp_} {self.e(base)})'
@@ -984,6 +994,12 @@ class Fn:
                     declared.add(v['name'])
                     self.ref_alias_base(v)   # C12: pre-register `T& r = field[idx];` so writes through r count as field writes
             return acc
+        if k == 'BinaryOperator' and n.get('opcode') == '=' and skip_wrappers(n['inner'][0]).get('kind') == 'MemberExpr' \
+                and skip_wrappers(n['inner'][0]).get('name') in self.ctx.cfg.get('assign_member_effects', {}):   # C06
+            acc.add(self.ctx.cfg['assign_member_effects'][skip_wrappers(n['inner'][0])['name']][0])
+            for c in n.get('inner', [])[1:]:
+                if isinstance(c, dict): self.assigned(c, acc, declared)
+            return acc
         if (k == 'BinaryOperator' and n.get('opcode') == '=') or k == 'CompoundAssignOperator':
             acc.add(self.lhs_name(n['inner'][0]))
         if k == 'CXXOperatorCallExpr' and self.ctx.cfg.get('opaque_types') and len(n.get('inner', [])) == 3:   # C06: opaque `x = y;`
@@ -1010,7 +1026,9 @@ class Fn:
         if k in ('CXXMemberCallExpr', 'CallExpr') and self.ctx.cfg.get('effect_calls'):   # C06: an effect call writes its field
             try:
                 en_ = self.ctx.cfg['effect_calls'].get(self.callee_name(n)[0]) or self.ctx.cfg['effect_calls'].get('%s/%d' % (self.callee_name(n)[0], len(n['inner']) - 1))   # C20: "Name/argc" distinguishes same-named callees
-                if en_ is not None:
+                if en_ is not None and isinstance(en_[0], list):   # C09: several effects of one call, see expr_stmt
+                    acc.update(e2_[0] for e2_ in en_)
+                elif en_ is not None:
                     acc.add(en_[0])
             except TranslationError:
                 pass
@@ -1146,6 +1164,13 @@ class Fn:
 
     def assign_to(self, lhs, val, k):
         lhs = skip_wrappers(lhs)
+        ame_ = self.ctx.cfg.get('assign_member_effects', {})   # C06: `opaque->member = v;` is an effect on a configured field: fld := fn fld <object> v
+        if lhs['kind'] == 'MemberExpr' and lhs.get('name') in ame_ and lhs.get('inner'):
+            fld_, fn_ = ame_[lhs['name']]
+            if fld_ not in self.ctx.fields:
+                raise TranslationError('assign_member_effects: %s is not a configured field' % fld_)
+            self.note_write(fld_)
+            return f'let {fld_} := ({fn_} {fld_} {self.e(lhs["inner"][0])} {val}) in\n{k()}'
         if lhs['kind'] == 'CXXOperatorCallExpr' and self.memobj(lhs) is not None and self.memobj(lhs)[1] == 'operator[]':   # C05
             mo, _m, margs = self.memobj(lhs)
             self.note_write(mo['arr'])
@@ -1415,8 +1440,10 @@ class Fn:
                 if not hasattr(self, 'struct_locals'): self.struct_locals = {}
                 self.struct_locals[nm] = st_
                 out_ = ''
-                for f_, g_ in zip(sl_[st_]['fields'], sl_[st_]['get']):
+                for i_, (f_, g_) in enumerate(zip(sl_[st_]['fields'], sl_[st_]['get'])):
                     self.env[nm + '_' + f_] = ('s', 64)
+                    if sl_[st_].get('bits'):   # C09: "bits": [8, 8]: the members are intN_t (arithmetic on them wraps at that width)
+                        self.env[nm + '_' + f_] = ('s', int(sl_[st_]['bits'][i_]))
                     out_ += f'let {nm}_{f_} := ({g_} {iv_}) in\n'
                 return out_ + go(i + 1)
             if self.ctx.cfg.get('object_fields'):   # C14: `MemManager memManager(std::move(static_cast<MemManager&>(*this)));`
@@ -1726,6 +1753,13 @@ class Fn:
                             raise TranslationError('swap of non-scalar ' + f_)
                         self.note_write(f_)
                     return f'let swap_tmp_ := {a_} in\nlet {a_} := {b_} in\nlet {b_} := swap_tmp_ in\n{rest()}'
+            if nm in self.ctx.cfg.get('store_calls', []) and k == 'CallExpr' and len(s0['inner']) == 3:
+                # C01 ("store_calls": ["ToBuffer"]): MemCopyer::ToBuffer(value, field) -- the configured scalar field takes the value
+                # (a pointer / integer stored through memcpy into a byte buffer member); config-gated, additive
+                dst_ = skip_wrappers(s0['inner'][2])
+                while dst_.get('kind') in ('ImplicitCastExpr', 'ParenExpr') and dst_.get('inner'):
+                    dst_ = skip_wrappers(dst_['inner'][0])
+                return self.assign_to(dst_, self.e(s0['inner'][1]), rest)
             if nm in self.ctx.cfg.get('assign_calls', []) and k == 'CallExpr' and len(s0['inner']) == 3:
                 # C14: "assign_calls": MemManagerProxy::Assign(src, dst) -- dst takes src's identity (PropagationModel: whichever
                 # overload / fallback is chosen); both are objects in the sense of "object_fields"
@@ -1789,6 +1823,15 @@ class Fn:
                 return self.assign_to(s0['inner'][-1], self.e(s0['inner'][-2]), rest)
             eff_ = self.ctx.cfg.get('effect_calls', {}).get(nm) or self.ctx.cfg.get('effect_calls', {}).get('%s/%d' % (nm, len(s0['inner']) - 1))   # C20: "Name/argc"
             if eff_ is not None:   # C06: "effect_calls": {"clear": ["st", "ev_clear"]}: a call statement whose effect is field := fn field args
+                if isinstance(eff_[0], list):   # C09: "effect_calls": {"pvSetBufferBytes": [["bbFirst", "set_first"], ["bbCount", "set_count"]]}:
+                    args_ = [self.e(a) for a in s0['inner'][1:]]   # one call writing SEVERAL fields: f1 := fn1 f1 args; f2 := fn2 f2 args (same argument values)
+                    out_ = ''
+                    for fld2_, fn2_ in eff_:
+                        if fld2_ not in self.ctx.fields:
+                            raise TranslationError('effect_calls: %s is not a configured field' % fld2_)
+                        self.note_write(fld2_)
+                        out_ += f'let {fld2_} := (' + ' '.join([fn2_, fld2_] + args_) + ') in\n'
+                    return out_ + rest()
                 fld_, fn_ = eff_
                 if fld_ not in self.ctx.fields:
                     raise TranslationError('effect_calls: %s is not a configured field' % fld_)
@@ -1993,7 +2036,7 @@ class Fn:
         return f'if {c} then (\n{t_txt})\nelse (\n{e_txt})'
 
     def returns_outcome_inside(self, txt):
-        return '| Stuck => Stuck' in txt or 'Stuck' in txt.split() or ' Exn' in txt or 'RETURN[false]' in txt   # C20: an injected failure exit is an exit
+        return '| Stuck => Stuck' in txt or 'Stuck' in txt.split() or ' Exn' in txt or 'RETURN[false]' in txt or 'RETURN[None]' in txt   # C20: an injected failure exit is an exit (C09: fails_option_return's exit too)
 
     def switch(self, s, rest, jc):
         inner = s['inner']
@@ -2061,6 +2104,10 @@ class Fn:
                 fi = self.ctx.fninfo.get(nm)
                 if fi is not None and not fi.is_static:
                     acc.update(fi.fieldnames)
+                if self.ctx.cfg.get('prim_reads_fields') and not self.ctx.cfg.get('atomic_mem'):   # C09: the same rule as C19's below without atomic_mem: a primitive
+                    pr9_ = self.ctx.cfg.get('primitives', {}).get(nm)                               # whose Gallina text names a configured field reads it (loop context)
+                    if pr9_:
+                        acc.update(w_ for w_ in pr9_.split() if w_ in self.ctx.fields)
                 if self.ctx.cfg.get('atomic_mem'):   # C19: a primitive whose Gallina text names a configured (pseudo) field reads that field
                     pr_ = self.ctx.cfg.get('primitives', {}).get(nm)
                     if pr_:
@@ -2212,6 +2259,8 @@ class Fn:
                 raise TranslationError('prefix: no declaration of %s in %s' % (pf['until'], self.name))
             ret_node = {'kind': 'GallinaReturn', 'text': pf['return_text'] if pf.get('return_text') in ('true', 'false') else self.tup(list(pf['return']))}   # C02: "return_text": "true" - the cut-off tail of a bool function always returns true
             body = dict(body, inner=body['inner'][:cut[0]] + [ret_node])
+            if pf.get('from_stmt') is not None:   # C09: drop the first k top-level statements (translated / modelled elsewhere): the translation starts at statement k
+                body = dict(body, inner=body['inner'][int(pf['from_stmt']):])
         # C12: "address_of" members mentioned in the body become opaque parameters up front (so that loops can carry them)
         for am in self.ctx.cfg.get('address_of', []):
             jb = json.dumps(body)
@@ -2244,6 +2293,11 @@ class Fn:
                 jc['ret'] = lambda v: f'RETURN[{self.tup([v] + self.outp)}]'
             else:
                 jc['ret'] = lambda v: f'RETURN[{self.tup(self.outp)}]'
+        if self.fails_mode and self.name in self.ctx.cfg.get('fails_option_return', []) and self.ret_ct[0] != 'void':
+            # C09 ("fails_option_return": [fn]): a NON-void function in "fails" mode returns `Some value` when it completes and `None`
+            # (with the fields of that moment) when a failing step throws - instead of replacing the value by the completed flag
+            jc['ret'] = lambda v: f'RETURN[(Some {v})]'
+            self.fail_k = lambda: 'RETURN[None]'
         txt = self.stmts([body], lambda: jc['ret']('true' if self.fails_mode else 'tt'), jc)   # C04: completed flag
         for dn_ in getattr(self, 'deref_out', ()):   # C18
             txt = f'let {dn_}_out := (0) in\n' + txt
